@@ -1,6 +1,8 @@
 Require Extraction.
 Require Import ExtrOcamlBasic.
 From Coq Require Import ZArith List.
-From Cspuz Require Import Lib.PyErr Core.Expr Core.Program Core.Build Backend.Z3 Backend.Z3Oracle.
+(* fully qualified names (and a blank before the final period): harness/vlib.py::build_runner
+   finds the model files to hash / build by scanning for "Cspuz.<Module>" *)
+Require Import Cspuz.Lib.PyErr Cspuz.Core.Expr Cspuz.Core.Program Cspuz.Core.Build Cspuz.Gen.Z3Table Cspuz.Backend.Z3 Cspuz.Backend.Z3Oracle .
 Extraction "model.ml" Z.add Nat.add pyerr_code conv find_answer bf_oracle spec_models sol_is_model
   eval no_graph env_of_sol trace sess0 count_true fold_or fold_and alldifferent wt refs_ok.
